@@ -878,6 +878,9 @@ def schema_bounds(prog, o):
         return ("LEN-MINUS-K", "index is len - %d (the subtraction is its own obligation)" % d.const_value())
     if _GT0(d) in {_fact_nf(f) for f in facts if f[0][0] == "cmp"}:
         return ("GUARD-DOM", "dominating guard implies %s < %s" % (describe(idx, body), describe(ln, body)))
+    rb = _range_item_end(prog, body, idx)
+    if rb is not None and _poly(rb) == _poly(ln):
+        return ("RANGE-ITEM", "index is an item of the range 0..%s" % describe(ln, body))
     # as_bytes()[lf - 1] with lf = find(..) payload, lf != 0
     if ln[0] == "call" and ln[1] == "[]::len" and ln[2][0][0] == "call" and ln[2][0][1] == "str::as_bytes":
         sx = ln[2][0][2][0]
@@ -1056,9 +1059,23 @@ def schema_index(prog, o):
     return None
 
 
+def _range_item_end(prog, body, x):
+    """x is an item yielded by iterating a Range { start, end }: the end term (x < end), else None."""
+    r = item_source(prog, body, x)
+    if r is None:
+        return None
+    src, path, call = r
+    if path == ["0"] and src[0] == "adt" and src[2] == "Range":
+        return dict(src[3]).get("end")
+    return None
+
+
 def slice_bound_ok(prog, body, x, base, facts):
     if x == ("int", 0):
         return "0"
+    rb_ = _range_item_end(prog, body, x)
+    if rb_ is not None and rb_[0] == "call" and rb_[1] in ("[]::len", "Vec::len") and rb_[2][0] == base:
+        return "item of the range 0..len(base) (< len)"
     if x[0] == "call" and x[1] in ("[]::len", "Vec::len") and x[2][0] == base:
         return "len(base)"
     if x[0] == "bin" and x[1] == "Sub" and x[2][0] == "call" and x[2][1] in ("[]::len", "Vec::len") \
